@@ -92,6 +92,16 @@ class Linear(Transform):
             self.cache.invalidate()
         return super().train(mode)
 
+    def _load_from_state_dict(self, *args, **kwargs):
+        # Newly loaded parameters make whatever is cached stale.
+        self.cache.invalidate()
+        super()._load_from_state_dict(*args, **kwargs)
+
+    def _apply(self, *args, **kwargs):
+        # .double() / .float() / .to(device) convert the parameters but not the cached tensors.
+        self.cache.invalidate()
+        return super()._apply(*args, **kwargs)
+
     def use_cache(self, mode=True):
         if not check.is_bool(mode):
             raise TypeError("Mode must be boolean.")
